@@ -113,3 +113,51 @@ Proof. repeat split; vm_compute; reflexivity. Qed.
 
 Lemma tables_exact : forall T m ex, acc_eq T m ex = true -> narrow_eq T m = [m].
 Proof. intros T m ex E; unfold acc_eq in E; unfold narrow_eq; now rewrite E. Qed.
+
+(* ---- the hypothesis narrow_id is necessary -------------------------------- *)
+
+Definition union_distributes_without_narrow_id : Prop :=
+  forall (acc : typ -> member -> bool -> bool) (narrow : typ -> member -> list member) (posof : var -> posn),
+    forall rho x ms body dflt,
+      ms <> [] ->
+      (forall v, v <> x -> exists m, get rho v = [m]) ->
+      sameset (fst (evaluate acc narrow posof ((x, ms) :: rho) body dflt))
+              (flat_map (fun m => fst (evaluate acc narrow posof ((x, [m]) :: rho) body dflt)) ms).
+
+(* member 9 plays Any: it matches every type when exclude_any=False, only type 9
+   otherwise, and a permissive match converts it to the tested type *)
+Definition acc_any (T m : nat) (ex : bool) : bool := if m =? 9 then negb ex || (T =? 9) else m =? T.
+Definition narrow_any (T m : nat) : list nat := if m =? 9 then [T] else if m =? T then [m] else [].
+
+(*  if not is_of_type(x, T0, exclude_any=False): return R1
+    if is_of_type(x, T1): return R2
+    else: return R3                                                        *)
+Definition any_body : block :=
+  BCons (SIf (CNot (CType 0 0 false)) (BCons (SReturn 1) BNil) BNil)
+ (BCons (SIf (CType 0 1 true) (BCons (SReturn 2) BNil) (BCons (SReturn 3) BNil)) BNil).
+
+Lemma any_values :
+  fst (evaluate acc_any narrow_any pos_int [(0, [9; 1])] any_body 4) = [1; 2; 3] /\
+  fst (evaluate acc_any narrow_any pos_int [(0, [9])] any_body 4) = [3] /\
+  fst (evaluate acc_any narrow_any pos_int [(0, [1])] any_body 4) = [1].
+Proof. repeat split; vm_compute; reflexivity. Qed.
+
+Lemma union_distributes_refuted_without_narrow_id : ~ union_distributes_without_narrow_id.
+Proof.
+  intros H.
+  pose proof (H acc_any narrow_any pos_int (@nil (var * list member)) 0 [9; 1] any_body 4) as Hr.
+  assert (Hne : [9; 1] <> []) by discriminate.
+  assert (Ho : forall v, v <> 0 -> exists m, get (@nil (var * list member)) v = [m]).
+  { intros v Hv. exists 0. reflexivity. }
+  specialize (Hr Hne Ho). unfold sameset in Hr. specialize (Hr 2). vm_compute in Hr.
+  destruct Hr as [Hin _]. assert (X : 1 = 2 \/ 2 = 2 \/ 3 = 2 \/ False) by (right; left; reflexivity).
+  specialize (Hin X). destruct Hin as [Hc|[Hc|Hc]]; try discriminate; contradiction.
+Qed.
+
+(* the hypotheses of the distribution theorem are satisfiable: any finite map
+   whose bound values are singletons *)
+Lemma others_unionfree_inhabited :
+  forall v, v <> 0 -> exists m, get [(1, [7]); (2, [5])] v = [m].
+Proof.
+  intros v Hv. destruct v as [|[|[|v]]]; [congruence|exists 7|exists 5|exists 0]; reflexivity.
+Qed.
